@@ -453,5 +453,332 @@ theorem equity_reparse (st : Settings) (acc : Option (Path → Bool)) (eqa : Pat
     rw [hacc]
     rfl
 
+/-! ### `equity_shape` -/
+
+theorem selRows_sorted (st : Settings) (acc : Option (Path → Bool)) (posts : List BPost) (all : List BalRow)
+    (hall : balance st posts = .ok all) :
+    (selRows acc all).Pairwise (fun a b => ¬ b.comm < a.comm) := by
+  have h1 := (balance_sorted st posts all hall).filter (nonZeroSel acc)
+  exact h1.imp (fun {a b} hab => keyLe_comm_le a.key b.key hab)
+
+theorem warning_units (dsum : Dec) : warning dsum = if dsum.units = 0 then warningLines else [] := by
+  unfold warning
+  by_cases hz : dsum.isZero = true
+  · simp [hz, (Dec.isZero_iff_units dsum).mp hz]
+  · have : ¬ dsum.units = 0 := fun h => hz ((Dec.isZero_iff_units dsum).mpr h)
+    simp [hz, this]
+
+theorem balancing_units (eqa : Path) (c : String) (dsum : Dec) :
+    balancing eqa c dsum = if dsum.units = 0 then [] else [⟨eqa, dsum.negate, c⟩] := by
+  unfold balancing
+  by_cases hz : dsum.isZero = true
+  · simp [hz, (Dec.isZero_iff_units dsum).mp hz]
+  · have : ¬ dsum.units = 0 := fun h => hz ((Dec.isZero_iff_units dsum).mpr h)
+    simp [hz, this]
+
+/-- **equity_shape**: the export consists of one transaction per commodity that has a selected non-zero row, in
+    strictly increasing commodity order (`cs`); the transaction of commodity `c` is dated at the last selected
+    transaction, is described by `eqDesc c`, and its postings are exactly the selected rows of `c` (in row order)
+    with amount = the row's own sum, followed by the balancing posting (equity account, −Σ, `c`) iff Σ ≠ 0 —
+    and the WARNING comment block iff Σ = 0. -/
+theorem equity_shape (st : Settings) (acc : Option (Path → Bool)) (eqa : Path) (md : List String)
+    (txns : List Txn) (out : List EqTxn) (hwf : TxnsWF txns)
+    (h : equityExport st acc eqa md txns = .ok out) :
+    ∃ all cs, balance st (postsOf txns) = .ok all ∧
+      cs.Pairwise (· < ·) ∧ (∀ c, c ∈ cs ↔ ∃ r ∈ selRows acc all, r.comm = c) ∧
+      Forall2 (fun c t => ∃ last, txns.getLast? = some last ∧
+                 IsEquityTxn eqa last.header md (selRows acc all) c t) cs out := by
+  obtain ⟨all, hall, hcase⟩ := export_inv st acc eqa md txns out h
+  have hscale := balance_own_scale st (postsOf txns) all (postsOf_wf txns hwf) hall
+  rcases hcase with ⟨hrows, rfl⟩ | ⟨_, last, hlast, hout⟩
+  · refine ⟨all, [], hall, List.Pairwise.nil, ?_, .nil⟩
+    intro c
+    simp [hrows]
+  · let rows := selRows acc all
+    let gs := chunkBy (fun r : BalRow => r.comm) rows
+    have hstrict := chunkBy_strict (fun r : BalRow => r.comm) rows (selRows_sorted st acc _ all hall)
+    have hnd := pairwise_lt_nodup _ hstrict
+    refine ⟨all, gs.map (·.1), hall, hstrict, ?_, ?_⟩
+    · intro c
+      constructor
+      · intro hc
+        simp only [List.mem_map] at hc
+        obtain ⟨kg, hkg, rfl⟩ := hc
+        exact chunkBy_key_mem (fun r : BalRow => r.comm) rows kg hkg
+      · rintro ⟨r, hr, rfl⟩
+        obtain ⟨kg, hkg, _, hk⟩ := chunkBy_mem (fun r : BalRow => r.comm) rows r hr
+        simp only [List.mem_map]
+        exact ⟨kg, hkg, hk⟩
+    · refine eqTxns_forall2 eqa last.header md _ gs ?_ out hout
+      intro kg hkg t ht
+      refine ⟨last, hlast, ?_⟩
+      obtain ⟨dsum, hd, rfl⟩ := eqTxn_spec eqa last.header md kg.1 kg.2 t ht
+      have hfil := chunkBy_eq_filter (fun r : BalRow => r.comm) rows hnd kg hkg
+      have hkeys := chunkBy_keys (fun r : BalRow => r.comm) rows kg hkg
+      have hsub := chunkBy_sub (fun r : BalRow => r.comm) rows kg hkg
+      have hrows : ∀ d ∈ kg.2.map (·.own), d.scale ≤ 28 := by
+        intro d hd'
+        simp only [List.mem_map] at hd'
+        obtain ⟨r, hr, rfl⟩ := hd'
+        have := hsub r hr
+        simp only [rows, selRows, List.mem_filter] at this
+        exact hscale r this.1
+      refine ⟨rfl, rfl, dsum, ?_, ?_, ?_⟩
+      · rw [(Dec.sum_units _ dsum hrows hd).1, ← hfil, List.map_map]; rfl
+      · exact congrArg (md ++ ·) (warning_units dsum)
+      · simp only
+        rw [balancing_units, ← hfil]
+        congr 1
+        apply List.map_congr_left
+        intro r hr
+        rw [hkeys.2 r hr]
+
+/-! ### `equity_carries` -/
+
+theorem perm_sum (l1 l2 : List Int) (h : l1.Perm l2) : l1.sum = l2.sum := by
+  induction h with
+  | nil => rfl
+  | cons x _ ih => simp [ih]
+  | swap x y l => simp only [List.sum_cons]; omega
+  | trans _ _ ih1 ih2 => omega
+
+theorem ownSpec_perm (ts1 ts2 : List Txn) (h : ts1.Perm ts2) (k : AKey) :
+    ownSpec (postsOf ts1) k = ownSpec (postsOf ts2) k := by
+  unfold ownSpec postsOf
+  exact perm_sum _ _ (((h.flatMap_right _).filter _).map _)
+
+/-- own-sum spec over generated posting lines -/
+def ownSpecE (ps : List EqPosting) (k : AKey) : Int :=
+  ((ps.filter (fun p => decide ((p.comm, p.acct) = k))).map (·.amount.units)).sum
+
+theorem ownSpecE_append (a b : List EqPosting) (k : AKey) :
+    ownSpecE (a ++ b) k = ownSpecE a k + ownSpecE b k := by
+  simp [ownSpecE, List.filter_append, List.sum_append]
+
+theorem ownSpec_toTxn (out : List EqTxn) (k : AKey) :
+    ownSpec (postsOf (out.map toTxn)) k = ownSpecE (out.flatMap (·.posts)) k := by
+  induction out with
+  | nil => rfl
+  | cons t rest ih =>
+    have e1 : postsOf ((t :: rest).map toTxn)
+        = (t.posts.map (fun p => (⟨p.acct, p.comm, p.amount⟩ : BPost))) ++ postsOf (rest.map toTxn) := by
+      simp [postsOf, toTxn, toPosting, List.map_map, Function.comp_def]
+    have e2 : ownSpec ((t.posts.map (fun p => (⟨p.acct, p.comm, p.amount⟩ : BPost))) ++ postsOf (rest.map toTxn)) k
+        = ownSpecE t.posts k + ownSpec (postsOf (rest.map toTxn)) k := by
+      simp only [ownSpec, ownSpecE, List.filter_append, List.map_append, List.sum_append, List.filter_map,
+        List.map_map]
+      rfl
+    rw [e1, e2, ih, List.flatMap_cons, ownSpecE_append]
+
+theorem ownSpecE_rows (g : List BalRow) (k : AKey) :
+    ownSpecE (g.map (fun b => (⟨b.acct, b.own, b.comm⟩ : EqPosting))) k
+      = ((g.filter (fun r => decide (r.key = k))).map (·.own.units)).sum := by
+  simp only [ownSpecE, List.filter_map, List.map_map]
+  rfl
+
+theorem ownSpecE_balancing (eqa : Path) (c : String) (dsum : Dec) (k : AKey) (hk : k.2 ≠ eqa) :
+    ownSpecE (balancing eqa c dsum) k = 0 := by
+  unfold balancing
+  split
+  · rfl
+  · have : ¬ ((c, eqa) = k) := by intro e; apply hk; rw [← e]
+    simp [ownSpecE, this]
+
+theorem eqTxns_sum (eqa : Path) (last : Header) (md : List String) (k : AKey) (hk : k.2 ≠ eqa) :
+    ∀ (gs : List (String × List BalRow)) (out : List EqTxn), eqTxns eqa last md gs = some out →
+      ownSpecE (out.flatMap (·.posts)) k
+        = (((gs.map (·.2)).flatten.filter (fun r => decide (r.key = k))).map (·.own.units)).sum := by
+  intro gs
+  induction gs with
+  | nil => intro out h; simp [eqTxns] at h; subst h; rfl
+  | cons kg rest ih =>
+    intro out h
+    obtain ⟨c, g⟩ := kg
+    simp only [eqTxns] at h
+    split at h
+    · cases h
+    · rename_i t ht
+      split at h
+      · cases h
+      · rename_i ts hts
+        cases h
+        obtain ⟨dsum, _, rfl⟩ := eqTxn_spec eqa last md c g t ht
+        simp only [List.flatMap_cons, List.map_cons, List.flatten_cons, List.filter_append, List.map_append,
+          List.sum_append]
+        rw [ownSpecE_append, ownSpecE_append, ih ts hts, ownSpecE_rows, ownSpecE_balancing eqa c dsum k hk]
+        omega
+
+theorem filter_key_unique : ∀ (l : List BalRow), (l.map BalRow.key).Nodup → ∀ r ∈ l,
+    l.filter (fun x => decide (x.key = r.key)) = [r] := by
+  intro l
+  induction l with
+  | nil => intro _ r hr; cases hr
+  | cons a t ih =>
+    intro hnd r hr
+    simp only [List.map_cons, List.nodup_cons, List.mem_map, not_exists, not_and] at hnd
+    rcases List.mem_cons.mp hr with rfl | hr'
+    · have : t.filter (fun x => decide (x.key = r.key)) = [] := by
+        simp only [List.filter_eq_nil_iff, decide_eq_true_eq]
+        exact fun x hx => hnd.1 x hx
+      simp [this]
+    · have hne : ¬ a.key = r.key := fun e => hnd.1 r hr' e.symm
+      simp [hne, ih hnd.2 r hr']
+
+/-- **equity_carries**: if the equity account is not among the selected accounts, then for every selected
+    (commodity, account) with non-zero balance the own sum computed from the re-loaded export (plain spec: Σ of the
+    amounts of its postings) equals the own sum of the source (the same plain spec).
+    `own_sum` and `rows_nodup` are facts of the balance kernel proved for C02 (`C02.own_sum`: a row's own sum is the
+    plain sum of the postings of its key; `C02.rows_nodup`: one row per key); they are hypotheses here and are
+    discharged by those theorems. -/
+theorem equity_carries (st : Settings) (acc : Option (Path → Bool)) (eqa : Path) (md : List String)
+    (txns : List Txn) (out : List EqTxn) (h : equityExport st acc eqa md txns = .ok out)
+    (all : List BalRow) (hall : balance st (postsOf txns) = .ok all)
+    (own_sum : ∀ r ∈ all, r.own.units = ownSpec (postsOf txns) r.key)
+    (rows_nodup : (all.map BalRow.key).Nodup)
+    (heqa : ∀ r ∈ selRows acc all, r.acct ≠ eqa)
+    (st' st'' : Settings) (hl : Lax st') (ts' : List Txn)
+    (hre : loadJournal st' (out.map EqTxn.toRaw) = .ok (ts', st'')) :
+    ∀ r ∈ selRows acc all, ownSpec (postsOf ts') r.key = ownSpec (postsOf txns) r.key := by
+  intro r hr
+  have hrall : r ∈ all := (List.mem_filter.mp hr).1
+  obtain ⟨hempty, hnonempty⟩ := equity_reparse st acc eqa md txns out h st' hl
+  by_cases hout : out = []
+  · rw [hempty hout] at hre; cases hre
+  · obtain ⟨st3, hload, _⟩ := hnonempty hout
+    rw [hload] at hre
+    cases hre
+    obtain ⟨all', hall', hcase⟩ := export_inv st acc eqa md txns out h
+    rw [hall] at hall'
+    cases hall'
+    rcases hcase with ⟨_, he⟩ | ⟨_, last, _, houts⟩
+    · exact absurd he hout
+    · rw [ownSpec_perm (sortTxns (out.map toTxn)) (out.map toTxn) (List.mergeSort_perm _ _) r.key, ownSpec_toTxn,
+        eqTxns_sum eqa last.header md r.key (heqa r hr) _ out houts, chunkBy_flatten]
+      have hnd : ((selRows acc all).map BalRow.key).Nodup :=
+        rows_nodup.sublist ((List.filter_sublist (l := all)).map BalRow.key)
+      rw [filter_key_unique _ hnd r hr]
+      simp [own_sum r hrall]
+
+/-- **equity_empty**: with no selected non-zero row nothing is written (`if bal.is_empty() { return Ok(()) }`);
+    in particular for an empty selection of transactions -/
+theorem equity_empty (st : Settings) (acc : Option (Path → Bool)) (eqa : Path) (md : List String)
+    (txns : List Txn) (out : List EqTxn) (h : equityExport st acc eqa md txns = .ok out)
+    (all : List BalRow) (hall : balance st (postsOf txns) = .ok all) :
+    out = [] ↔ selRows acc all = [] := by
+  obtain ⟨all', hall', hcase⟩ := export_inv st acc eqa md txns out h
+  rw [hall] at hall'
+  cases hall'
+  rcases hcase with ⟨h1, h2⟩ | ⟨h1, last, _, hout⟩
+  · exact ⟨fun _ => h1, fun _ => h2⟩
+  · constructor
+    · intro he
+      subst he
+      cases hc : chunkBy (fun r : BalRow => r.comm) (selRows acc all) with
+      | nil =>
+        have := chunkBy_flatten (fun r : BalRow => r.comm) (selRows acc all)
+        rw [hc] at this
+        exact absurd this.symm h1
+      | cons kg rest =>
+        rw [hc] at hout
+        obtain ⟨c, g⟩ := kg
+        simp only [eqTxns] at hout
+        split at hout
+        · cases hout
+        · split at hout <;> cases hout
+    · intro he; exact absurd he h1
+
+theorem equity_no_txns (st : Settings) (acc : Option (Path → Bool)) (eqa : Path) (md : List String) :
+    equityExport st acc eqa md [] = .ok [] := by
+  unfold equityExport fromIter
+  rw [show postsOf [] = [] from rfl, balance_nil]
+  rfl
+
+/-! ### non-vacuity: concrete exports, boundary witnesses -/
+
+def d (n : Int) : Dec := Dec.ofInt n
+def hdr (ns : Int) (u : Option String) : Header := ⟨⟨ns, 0⟩, none, none, u, none, none, none⟩
+def post (a : Path) (n : Int) (c : String) : Posting := ⟨a, c, d n, d n, false, c, none⟩
+
+/-- settings after loading `j1` (lax, no audit) -/
+def st1 : Settings := ⟨false, false, true, [["a"], ["b"], ["c"], ["e"]], [], ["", "EUR"], []⟩
+
+/-- `1970-01-01T00:00:00.000000001Z / a 3 / b -3` and `…002Z # uuid: u2 / a 5 EUR / c 2 EUR / e -7 EUR` -/
+def j1 : List Txn := [
+  ⟨hdr 1 none, [post ["a"] 3 "", post ["b"] (-3) ""]⟩,
+  ⟨hdr 2 (some "u2"), [post ["a"] 5 "EUR", post ["c"] 2 "EUR", post ["e"] (-7) "EUR"]⟩]
+
+def rows1 : List BalRow := [
+  ⟨["a"], "", d 3, d 3⟩, ⟨["b"], "", d (-3), d (-3)⟩,
+  ⟨["a"], "EUR", d 5, d 5⟩, ⟨["c"], "EUR", d 2, d 2⟩, ⟨["e"], "EUR", d (-7), d (-7)⟩]
+
+theorem balance_j1 : balance st1 (postsOf j1) = .ok rows1 := by
+  have h1 : accountSums (postsOf j1) = some [(("", ["a"]), d 3), (("", ["b"]), d (-3)),
+      (("EUR", ["a"]), d 5), (("EUR", ["c"]), d 2), (("EUR", ["e"]), d (-7))] := by
+    unfold accountSums
+    rw [List.mergeSort_of_pairwise (by decide)]
+    decide
+  unfold balance
+  rw [h1]
+  have h2 : completeTree st1 [(("", ["a"]), d 3), (("", ["b"]), d (-3)),
+      (("EUR", ["a"]), d 5), (("EUR", ["c"]), d 2), (("EUR", ["e"]), d (-7))] = .ok [(("", ["a"]), d 3), (("", ["b"]), d (-3)),
+      (("EUR", ["a"]), d 5), (("EUR", ["c"]), d 2), (("EUR", ["e"]), d (-7))] := by decide
+  simp only [h2]
+  have h3 : flattenOpt (([(("", ["a"]), d 3), (("", ["b"]), d (-3)),
+      (("EUR", ["a"]), d 5), (("EUR", ["c"]), d 2), (("EUR", ["e"]), d (-7))].filter (fun s => s.1.2.length == 1)).map
+        (treeNodes [(("", ["a"]), d 3), (("", ["b"]), d (-3)),
+      (("EUR", ["a"]), d 5), (("EUR", ["c"]), d 2), (("EUR", ["e"]), d (-7))] (maxDepth [(("", ["a"]), d 3), (("", ["b"]), d (-3)),
+      (("EUR", ["a"]), d 5), (("EUR", ["c"]), d 2), (("EUR", ["e"]), d (-7))] + 1))) = some rows1 := by decide
+  simp only [h3]
+  rw [List.mergeSort_of_pairwise (by decide)]
+
+
+/-- selector `a|c`, equity account `Eq`: two commodities, each with its balancing posting -/
+theorem export_j1_sel : equityExport st1 (some (fun p => p == ["a"] || p == ["c"])) ["Eq"] [] j1 = .ok [
+   ⟨⟨2, 0⟩, "Equity: last txn (uuid): u2", [], [⟨["a"], d 3, ""⟩, ⟨["Eq"], d (-3), ""⟩]⟩,
+   ⟨⟨2, 0⟩, "Equity for EUR: last txn (uuid): u2", [],
+    [⟨["a"], d 5, "EUR"⟩, ⟨["c"], d 2, "EUR"⟩, ⟨["Eq"], d (-7), "EUR"⟩]⟩] := by
+  unfold equityExport fromIter
+  rw [balance_j1]
+  decide
+
+/-- no selector: the selected sums of both commodities cancel — WARNING block, no balancing posting -/
+theorem export_j1_all : equityExport st1 none ["Eq"] ["md"] j1 = .ok [
+   ⟨⟨2, 0⟩, "Equity: last txn (uuid): u2", "md" :: warningLines, [⟨["a"], d 3, ""⟩, ⟨["b"], d (-3), ""⟩]⟩,
+   ⟨⟨2, 0⟩, "Equity for EUR: last txn (uuid): u2", "md" :: warningLines,
+    [⟨["a"], d 5, "EUR"⟩, ⟨["c"], d 2, "EUR"⟩, ⟨["e"], d (-7), "EUR"⟩]⟩] := by
+  unfold equityExport fromIter
+  rw [balance_j1]
+  decide
+
+/-- a selector matching nothing: empty export -/
+example : equityExport st1 (some (fun p => p == ["nomatch"])) ["Eq"] [] j1 = .ok [] := by
+  unfold equityExport fromIter
+  rw [balance_j1]
+  decide
+
+/-- the hypotheses of the theorems are satisfiable by these inputs -/
+example : TxnsWF j1 := by
+  intro t ht p hp
+  simp only [j1, List.mem_cons, List.not_mem_nil, or_false] at ht
+  rcases ht with rfl | rfl <;> simp only [List.mem_cons, List.not_mem_nil, or_false] at hp <;>
+    rcases hp with rfl | rfl | rfl <;> decide
+example : Lax st1 := ⟨rfl, rfl, rfl⟩
+
+set_option maxRecDepth 8000 in
+/-- exact text of a generated transaction -/
+example : equityText [⟨⟨1500000000, 7200⟩, "Equity for EUR", ["c"], [⟨["a", "b"], ⟨true, 150, 2⟩, "EUR"⟩, ⟨["Eq"], ⟨false, 150, 2⟩, "EUR"⟩]⟩] =
+    some "1970-01-01T02:00:01.5+02:00 'Equity for EUR\n   ; c\n   a:b  -1.50 EUR\n   Eq  1.50 EUR\n\n" := by decide
+
+/-- boundary: the equity account equal to a selected account — the export is still accepted and balanced
+    (`equity_accepts` has no side condition), but that account's own sum is not carried: here `a` re-loads with
+    3 + (−3) = 0 instead of 3, so the hypothesis `heqa` of `equity_carries` cannot be dropped -/
+example : equityExport st1 (some (fun p => p == ["a"])) ["a"] [] j1 = .ok [
+   ⟨⟨2, 0⟩, "Equity: last txn (uuid): u2", [], [⟨["a"], d 3, ""⟩, ⟨["a"], d (-3), ""⟩]⟩,
+   ⟨⟨2, 0⟩, "Equity for EUR: last txn (uuid): u2", [], [⟨["a"], d 5, "EUR"⟩, ⟨["a"], d (-5), "EUR"⟩]⟩] := by
+  unfold equityExport fromIter
+  rw [balance_j1]
+  decide
+example : ownSpecE [⟨["a"], d 3, ""⟩, ⟨["a"], d (-3), ""⟩] ("", ["a"]) = 0 ∧ (d 3).units ≠ 0 := by decide
+
 end C10
 end Tackler
